@@ -190,7 +190,7 @@ func drawDL(t *rapid.T, kind string) *dlMsg {
 		case 0:
 			m.Payload, _ = drawRelCmd(t).Encode()
 		case 1:
-			m.PayloadType = uint8(rapid.IntRange(1, 15).Draw(t, "payload_type"))
+			m.PayloadType = uint8(rapid.IntRange(2, 15).Draw(t, "payload_type")) // not N1 SM information: opaque payload
 			m.Payload = d.bytes("payload", 1, 3000)
 		default:
 			m.Payload, _ = drawEstAcc(t).Encode()
@@ -464,6 +464,11 @@ func c09DL(c c09Case, vd *ev.Verdict, fail failer) ev.Verdict {
 		// the N1 SM message inside decodes on its own (what tglib hands on)
 		if m.PayloadType == 1 && len(m.Payload) >= 4 && m.Payload[0] == 0x2E {
 			in, _ := refnas.Identify(m.Payload)
+			if in != nil {
+				if _, err := in.Parse(m.Payload); err != nil {
+					in = nil // not a well-formed 5GSM message by the table: nothing to claim about it
+				}
+			}
 			if in != nil {
 				if _, es := decodeAndCheck(in.Name, g.PayloadContainer.GetPayloadContainerContents()); len(es) > 0 {
 					return fail("payload:"+es[0].key, "N1 SM payload: %s", es[0].msg)
